@@ -160,3 +160,6 @@ func VerifHandlerPeerIDs(h *Handler) map[string]string {
 	}
 	return out
 }
+
+// VerifCountFailure counts one dial failure against a peer of a provisioned handler the way dialPeers does.
+func VerifCountFailure(h *Handler, ui, pi int) { h.countFailure(h.Upstreams[ui].peers[pi]) }
